@@ -67,6 +67,10 @@ def run(ck):
         g = dict(g); g["orc"] = 0; g.pop("fmts")
         g["calls"] = [pcall(a, f, extra=False) for a in FIT4 for f in ("iddict", "list")]
         groups.append(g); ck.cat("common_factor_1e8")
+    for g in gen.long_families(ck.rng, 40 if q else 2000, hi=160):                # 65-160 items: code paths chosen by input size
+        g = dict(g); g["orc"] = 0; g["calls"] = [pcall(a, "iddict", extra=False) for a in FIT4]; groups.append(g); ck.cat("long_sequences")
+    for g in gen.long_families(ck.rng, 40 if q else 2000, cover=True, hi=160):
+        g = dict(g); g["orc"] = 0; g["calls"] = [pcall(a, "iddict", extra=False) for a in COVERS]; groups.append(g); ck.cat("long_sequences")
     # stepwise: the recorded sequence of placements (which item into which bin) of every heuristic against the rule
     st = [{"alg": a, "vals": g["vals"], "k": g["C"]} for g in scope.q_scope(ck, 4 if q else 5, 3, [2, 3]) for a in ("greedy", "roundrobin")]
     st += [{"alg": a, "vals": g["vals"], "C": g["C"]} for g in scope.q_scope(ck, 4 if q else 5, 5, [5, 6]) if max(g["vals"]) <= g["C"] for a in FIT4]
